@@ -291,23 +291,22 @@ def run(chk):
                 if got2 != got:
                     chk.violation("decode-pycan-differs", "CanMatrix.decode_pycan selects another frame than CanMatrix.decode for the same identifier",
                                   dict(frames=frames_desc, probe=(pid, pext)), got, got2)
-            # oracle
-            if not pext:
-                exp = ("empty",)
-            else:
-                exact = [d for d in frames_desc if d[1] == pid and d[2]]
-                if exact:
-                    exp = ("frame", exact[0][0])
-                else:
-                    same = [d for d in frames_desc if d[2] and spec_pgn(d[1]) == spec_pgn(pid)]
-                    exp = ("frame", same[0][0]) if same else ("empty",)
+            # oracle: "decoded with the frame of the same PGN whatever its priority and source address": with several frames of
+            # that PGN the property does not say which one - any carrier of the PGN is right (the decode_pycan comparison above
+            # still demands that both entry points pick the same one)
+            same = [d for d in frames_desc if d[2] and spec_pgn(d[1]) == spec_pgn(pid)]
+            carriers = {d[0] for d in same}
             chk.case(("sel", tuple(frames_desc), pid, pext), True)
-            chk.count("select-" + exp[0])
-            if got != exp:
-                chk.violation("decode-select", "received identifier not decoded with the frame of the same PGN / not to nothing",
-                              dict(frames=frames_desc, probe=(pid, pext)), exp, got)
-            enc = [[0, got[1]]] if got[0] == "frame" else ([[1]] if got[0] == "empty" else [[2]])
-            add(906, [[pid, int(pext)]] + [[u, i, int(e), int(j)] for u, i, e, j in frames_desc], enc, dict(frames=frames_desc, probe=(pid, pext)))
+            chk.count("select-frame" if same else "select-empty")
+            chk.count("carriers-of-the-pgn:%d" % min(len(carriers), 3))
+            good = (got[0] == "frame" and got[1] in carriers) if same else (got == ("empty",))
+            if not good:
+                chk.violation("decode-select", "received identifier not decoded with a frame of the same PGN / not to nothing",
+                              dict(frames=frames_desc, probe=(pid, pext)), sorted(carriers) if same else "empty", got)
+            if len(carriers) <= 1:
+                # the model picks the first carrier: tied only where the choice is not open
+                enc = [[0, got[1]]] if got[0] == "frame" else ([[1]] if got[0] == "empty" else [[2]])
+                add(906, [[pid, int(pext)]] + [[u, i, int(e), int(j)] for u, i, e, j in frames_desc], enc, dict(frames=frames_desc, probe=(pid, pext)))
         # a fresh matrix per probe set is not needed: frame_by_id's memo is per key
     chk.sample(dict(frames=[(0, 0x123, False, False), (1, 0x18FEF100, True, True)], probe=(0x0CFEF133, True), selected=1))
     chk.sample(dict(id=0x18EF1200, pgn=0xEF00, destination=0x12))
